@@ -727,3 +727,39 @@ Proof.
   intros Hwf [Hg0 Hls]. apply scan_layout_canon; [done|]. pose proof (wf_canon _ Hwf) as Hc. unfold lines_of in Hc.
   rewrite Forall_fmap in Hc. rewrite Forall_forall in Hc, Hls. apply Forall_forall. intros p Hp. destruct (Hls p Hp). split; [by apply Hc|done].
 Qed.
+
+(* ---- a final comment without terminating newline ---- *)
+Lemma del_fin fin : fin_ok fin → ∀ n, length (render_fin fin) ≤ n → delete_n n rd_re_comment (render_fin fin) = [].
+Proof.
+  destruct fin as [c|]; simpl; intros Hc n Hn; [|by destruct n]. destruct n as [|n]; [lia|]. simpl delete_n.
+  assert (Hm : match_here rd_re_comment (35 :: c) = Some ([], [])).
+  { unfold match_here, rd_re_comment. rewrite mt_seq, mt_lit. cbv beta. rewrite <- (app_nil_r c) at 1.
+    refine (star_cls_greedy c_notnl c [] _ _ _ _ _ _); [|done|reflexivity].
+    apply Forall_forall. intros x Hx. unfold c_notnl, in_cls, existsb. simpl fst. simpl snd. rewrite orb_false_r.
+    apply negb_true_iff, andb_false_iff. assert (x ≠ 10) by (intros ->; done).
+    destruct (decide (x ≤ 10)); [left; apply Nat.leb_gt; lia|right; apply Nat.leb_gt; lia]. }
+  rewrite Hm. simpl. by destruct n.
+Qed.
+Lemma del_units_tail (ls : list lunit) (T Tp : list nat) : Forall lunit_ok ls →
+  (∀ n, length T ≤ n → delete_n n rd_re_comment T = Tp) →
+  ∀ n, length ((ls ≫= λ p, render_line_lay p.1.1 p.1.2 ++ render_gap p.2) ++ T)%list ≤ n →
+  delete_n n rd_re_comment ((ls ≫= λ p, render_line_lay p.1.1 p.1.2 ++ render_gap p.2) ++ T)%list = (units_text (plain_unit <$> ls) ++ Tp)%list.
+Proof.
+  intros Hls HT. induction Hls as [|p ls Hp Hls IH]; intros n Hn; [by apply HT|].
+  rewrite bind_cons in *. rewrite fmap_cons. unfold units_text. rewrite bind_cons. fold (units_text (plain_unit <$> ls)).
+  destruct Hp as (Hc & Hy & Hg). rewrite <- !app_assoc in *. rewrite app_length in Hn.
+  rewrite del_plain by (eauto using line_lay_no35 || lia). unfold unit_text at 1. simpl. rewrite <- !app_assoc. f_equal.
+  apply del_gap; [done|exact IH|lia].
+Qed.
+Theorem scan_layout_fin g0 ls fin : wfb (lines_of ls) = true → layouts_ok g0 ls → fin_ok fin →
+  scan_codes (render_layout_fin g0 ls fin) = by_pass (lines_of ls).
+Proof.
+  intros Hwf [Hg0 Hls] Hfin.
+  assert (Hls' : Forall lunit_ok ls).
+  { pose proof (wf_canon _ Hwf) as Hc. unfold lines_of in Hc. rewrite Forall_fmap in Hc. rewrite Forall_forall in Hc, Hls.
+    apply Forall_forall. intros p Hp. destruct (Hls p Hp). split; [by apply Hc|done]. }
+  unfold scan_codes, delete_all, render_layout_fin, render_layout. rewrite <- app_assoc.
+  rewrite (del_gap g0 _ (units_text (plain_unit <$> ls) ++ []) Hg0 (del_units_tail ls _ [] Hls' (del_fin fin Hfin))) by done.
+  rewrite app_nil_r. rewrite scan_units; [|by apply gap_plain_ws|apply Forall_fmap; eapply Forall_impl; [exact Hls'|apply plain_unit_ok]].
+  unfold lines_of. rewrite <- list_fmap_compose. done.
+Qed.
